@@ -109,6 +109,9 @@ def deepcopy_stream(ctx, g, h):
             bad = bad or exact("the deep copy", cp, "after the module was appended to the copy again")
         if bad:
             ctx.add("oracle", "deepcopy-cache", bad, {"items": h.items})
+        else:
+            ctx.count("twin_swaps_by_one_operator", world.twin_swaps(
+                g, ir, cp, ctx.rng, lambda p: ctx.add("oracle", "twin-swap-cache", p, {"items": h.items})))
 
 
 def any_block_scenario(ctx, g, rng, rounds):
